@@ -14,7 +14,7 @@ use proptest::prelude::*;
 use serde::{Deserialize, Serialize};
 use serde_json::{json, Value};
 
-pub const RULE: &str = "cases = (model, position, kind of missing object, parse mode): the model's full instance (engine/schema.rs) with one position - a dictionary entry, an array element, or an entry of a nested direct dictionary - replaced by a reference to (a) object 0, (b) a freed number, (c) a number in a gap of the cross-reference table, (d) /Size, (e) /Size+5, (f) 999999; the instance is object 100 of a generated file and is read as the model in strict and tolerant mode; oracle = metamorphic: the same instance with a literal null at that position (and, for entries, with the entry removed) is read too; whenever the null variant reads Ok the dangling variant must read Ok and give the same written form (Debug form for reader-only models), a reference merely carried unresolved being accepted; a required entry (absent => Err) must give Err whose chain names the same field as the absent variant; never a panic; second section: whole documents whose catalog / page-tree / page entries dangle must load and deliver page 0 in cached/uncached x strict/tolerant exactly when the null variant does; non-trivial = the null variant read Ok (the equivalence was compared) or the entry is required";
+pub const RULE: &str = "cases = (model, position, kind of missing object, parse mode): the model's full instance (engine/schema.rs) with one position - a dictionary entry, an array element, or an entry of a nested direct dictionary - replaced by a reference to (a) object 0, (b) a freed number, (c) a number in a gap of the cross-reference table, (d) /Size, (e) /Size+5, (f) 999999, (g) a number defined in the first section and freed by an appended incremental update; the instance is object 100 of a generated file and is read as the model in strict and tolerant mode; oracle = metamorphic: the same instance with a literal null at that position (and, for entries, with the entry removed) is read too; whenever the reference variant (entry removed; for array elements a literal null) reads Ok the dangling variant must read Ok and give the same written form (Debug form for reader-only models), a reference merely carried unresolved being accepted; a required entry (absent => Err) must give Err whose chain names the same field as the absent variant; never a panic; second section: whole documents whose catalog / page-tree / page entries dangle must load and deliver page 0 in cached/uncached x strict/tolerant exactly when the null variant does; non-trivial = the null variant read Ok (the equivalence was compared) or the entry is required";
 
 #[derive(Clone, Debug, Serialize, Deserialize, PartialEq)]
 pub enum Pos {
@@ -31,14 +31,16 @@ pub struct Case {
     /// choice tape for the instance (empty = the plain template); edits from C15's generator
     pub tape: Bytes,
     pub pos: Pos,
-    /// 0 object zero, 1 freed, 2 gap, 3 size, 4 size+5, 5 far
+    /// 0 object zero, 1 freed, 2 gap, 3 size, 4 size+5, 5 far, 6 freed by an incremental update
     pub kind: u8,
     pub tolerant: bool,
 }
 
 const FREED: &[u64] = &[50, 51];
 const GAP: u64 = 60;
-pub const KINDS: &[&str] = &["object-0", "freed", "gap", "size", "size+5", "far"];
+const FREED_LATER: &[u64] = &[70];
+pub const KINDS: &[&str] = &["object-0", "freed", "gap", "size", "size+5", "far", "freed-by-update"];
+const NKINDS: u8 = 7;
 
 fn dict_of(v: &Val) -> Option<&Vec<(Bytes, Val)>> {
     match v {
@@ -225,7 +227,7 @@ fn null_missing(v: &Val) -> Val {
 }
 
 fn read_variant(m: &Model, subject: &Val, aux: &[(u64, Val)], tolerant: bool) -> Result<Read, String> {
-    let (bytes, _) = schema::case_file(subject, aux, FREED);
+    let (bytes, _) = schema::case_file_full(subject, aux, FREED, &[], FREED_LATER);
     let opts = if tolerant { ParseOptions::tolerant() } else { ParseOptions::strict() };
     let mut file: UncachedFile = FileOptions::uncached().parse_options(opts).load(bytes).map_err(|e| format!("case file does not load: {:?}", e))?;
     let p0 = file.resolver().resolve(PlainRef { id: SUBJECT, gen: 0 }).map_err(|e| format!("subject does not resolve: {:?}", e))?;
@@ -251,7 +253,13 @@ fn read_variant(m: &Model, subject: &Val, aux: &[(u64, Val)], tolerant: bool) ->
     } else {
         match schema::read_debug(m.name, &file, p0) {
             None => Err(format!("no dispatch for {}", m.name)),
-            Some(Ok(s)) => Ok(Read::Ok(Canon::Null, s)),
+            Some(Ok(s)) => {
+                // catch-all dictionaries print one entry per line in insertion order, which depends on which entries
+                // were taken out before: compare order-free
+                let mut lines: Vec<&str> = s.split('\n').map(|l| l.trim_end_matches(',')).collect();
+                lines.sort();
+                Ok(Read::Ok(Canon::Null, lines.join("\n")))
+            }
             Some(Err(e)) => Ok(Read::Err(e)),
         }
     }
@@ -291,7 +299,8 @@ fn dangling_number(kind: u8, size: u64) -> u64 {
         2 => GAP,
         3 => size,
         4 => size + 5,
-        _ => 999_999,
+        5 => 999_999,
+        _ => FREED_LATER[0],
     }
 }
 
@@ -326,7 +335,7 @@ pub fn check_case(c: &Case, info: &mut CaseInfo) -> Result<(), Failure> {
         Pos::Nested(k, nk) => format!("{}/{}", k, nk),
         Pos::TopElem(i) => format!("[{}]", i),
     };
-    info.label(format!("kind/{}", KINDS[c.kind as usize % 6]));
+    info.label(format!("kind/{}", KINDS[c.kind as usize % 7]));
     info.label(format!("mode/{}", mode));
     info.label(format!("placement/{}", placement));
     info.label(format!("model/{}", m.name));
@@ -355,6 +364,25 @@ pub fn check_case(c: &Case, info: &mut CaseInfo) -> Result<(), Failure> {
     let rn = run(&n_subj)?;
     // Does this position accept an indirect value at all?  (Several scalar readers never follow references; what they
     // do with a dangling one says nothing about missing objects.)
+    // (in tolerant mode such a position does not fail but silently drops the enclosing optional value: then the
+    // dangling reference gives the same value as a valid reference at that position)
+    let same_as_valid_reference = |ca: &Canon, da: &str| -> bool {
+        let orig = match value_at(&built.subject, &c.pos) {
+            Some(v) if !matches!(v, Val::Ref(..)) => v,
+            _ => return false,
+        };
+        let n = SUBJECT + 1 + built.aux.len() as u64;
+        let mut aux = built.aux.clone();
+        aux.push((n, orig));
+        let v_subj = match substitute(&built.subject, &c.pos, Some(&Val::Ref(n, 0))) {
+            Some(v) => v,
+            None => return false,
+        };
+        match panics::catch(|| read_variant(m, &v_subj, &aux, c.tolerant)) {
+            Ok(Ok(Read::Ok(cv, dv))) => cv == *ca && dv == da,
+            _ => false,
+        }
+    };
     let accepts_references = || -> Result<bool, Failure> {
         let orig = match value_at(&built.subject, &c.pos) {
             Some(v) => v,
@@ -419,7 +447,18 @@ pub fn check_case(c: &Case, info: &mut CaseInfo) -> Result<(), Failure> {
         }
         return Ok(());
     }
-    match (&rn, &ra) {
+    // the reference outcome: the entry absent (what the property states) where the position is an entry, else a literal null
+    let reference = match &rr {
+        Some(r @ Read::Ok(..)) => {
+            info.label("reference/entry-absent");
+            r
+        }
+        _ => {
+            info.label("reference/literal-null");
+            &rn
+        }
+    };
+    match (reference, &ra) {
         (Read::Ok(cn, dn), Read::Ok(ca, da)) => {
             info.nontrivial(true);
             info.label("null-variant-ok");
@@ -430,8 +469,16 @@ pub fn check_case(c: &Case, info: &mut CaseInfo) -> Result<(), Failure> {
             }
             // (Debug text of reader-only models: an empty list is how a Vec field holds "absent")
             let same = carried || if m.writable { cn == ca } else { dn.replace("Some([])", "None") == da.replace("Some([])", "None") };
+            if !same && same_as_valid_reference(ca, da) {
+                info.label("position-rejects-any-reference");
+                return Ok(());
+            }
             if !same {
-                return Err(fail(key("differs-from-null"), format!("entry refers to missing object {}: value read {:?}, with a literal null {:?}", k, truncate(&format!("{:?}{}", ca, da), 300), truncate(&format!("{:?}{}", cn, dn), 300))));
+                let (x, y) = (format!("{:?}{}", ca, da), format!("{:?}{}", cn, dn));
+                let at = x.bytes().zip(y.bytes()).position(|(p, q)| p != q).unwrap_or(x.len().min(y.len()));
+                let from = at.saturating_sub(60);
+                let cut = |t: &str| t.chars().skip(from).take(160).collect::<String>();
+                return Err(fail(key("differs-from-absent"), format!("entry refers to missing object {}: the value read differs from the one read without the entry (with a literal null for array elements) near offset {}: dangling ...{}... reference ...{}...", k, at, cut(&x), cut(&y))));
             }
         }
         (Read::Ok(..), Read::Err(e)) => {
@@ -442,7 +489,7 @@ pub fn check_case(c: &Case, info: &mut CaseInfo) -> Result<(), Failure> {
             info.nontrivial(true);
             info.label("null-variant-ok");
             let kind_class = errs::root_kind(e);
-            return Err(fail(key(&format!("error-instead-of-null:{}", kind_class)), format!("entry refers to missing object {} ({}): reading fails with {:?} although a literal null there reads fine", k, KINDS[c.kind as usize % 6], errs::chain(e))));
+            return Err(fail(key(&format!("error-instead-of-absent:{}", kind_class)), format!("entry refers to missing object {} ({}): reading fails with {:?} although the instance without that entry (a literal null for array elements) reads fine", k, KINDS[c.kind as usize % 7], errs::chain(e))));
         }
         (Read::Ok(..), Read::WriteErr(w)) => {
             info.label("null-variant-ok");
@@ -453,7 +500,7 @@ pub fn check_case(c: &Case, info: &mut CaseInfo) -> Result<(), Failure> {
         }
     }
     if info.sample.is_none() {
-        info.sample = Some(json!({"model": m.name, "position": pos_name, "kind": KINDS[c.kind as usize % 6], "mode": mode, "dangling": format!("{} 0 R", k)}));
+        info.sample = Some(json!({"model": m.name, "position": pos_name, "kind": KINDS[c.kind as usize % 7], "mode": mode, "dangling": format!("{} 0 R", k)}));
     }
     Ok(())
 }
@@ -472,6 +519,7 @@ const DOC_ENTRIES: &[(u64, &str, &str)] = &[
     (1, "Outlines", "28 0 R"), (1, "AcroForm", "<< /Fields [11 0 R] >>"), (1, "Metadata", "15 0 R"), (1, "PageLabels", "24 0 R"), (1, "Names", "<< >>"), (1, "Dests", "<< >>"),
     (1, "StructTreeRoot", "<< /Type /StructTreeRoot >>"), (1, "Version", "/1.7"), (1, "VhUnknown", "(x)"),
     (2, "Resources", "8 0 R"), (2, "MediaBox", "[0 0 612 792]"), (2, "CropBox", "[0 0 612 792]"), (2, "Parent", "null"),
+    (8, "Font", "<< >>"), (8, "XObject", "<< >>"), (8, "ExtGState", "<< >>"), (8, "ColorSpace", "<< >>"), (8, "Pattern", "<< >>"), (8, "Properties", "<< >>"),
     (3, "Resources", "8 0 R"), (3, "Contents", "4 0 R"), (3, "Annots", "[26 0 R]"), (3, "CropBox", "[0 0 10 10]"), (3, "TrimBox", "[0 0 10 10]"), (3, "Metadata", "15 0 R"), (3, "LGIDict", "<< >>"), (3, "VP", "[]"), (3, "VhUnknown", "(x)"), (3, "MediaBox", "[0 0 612 792]"),
 ];
 
@@ -481,7 +529,10 @@ fn doc_outcome(bytes: &[u8], cached: bool, tolerant: bool) -> Result<String, Str
         let page = file.get_page(0).map_err(|e| format!("get_page: {}", errs::root_kind(&e)))?;
         let media = page.media_box().map(|r| format!("{:?}", (r.left, r.bottom, r.right, r.top))).unwrap_or_else(|e| format!("err:{}", errs::root_kind(&e)));
         let res = page.resources().map(|r| r.fonts.len().to_string()).unwrap_or_else(|e| format!("err:{}", errs::root_kind(&e)));
-        Ok(format!("pages={} media={} fonts={} contents={}", file.num_pages(), media, res, page.contents.is_some()))
+        let r = file.resolver();
+        let annots = page.annotations.load(&r).map(|a| a.len().to_string()).unwrap_or_else(|e| format!("err:{}", errs::root_kind(&e)));
+        let fonts_loaded = page.resources().map(|res| res.fonts.values().map(|f| f.load(&r).is_ok().to_string()).collect::<Vec<_>>().join(",")).unwrap_or_default();
+        Ok(format!("pages={} media={} fonts={} loaded=[{}] contents={} annots={}", file.num_pages(), media, res, fonts_loaded, page.contents.is_some(), annots))
     })
 }
 
@@ -494,12 +545,12 @@ pub fn check_doc(c: &DocCase, info: &mut CaseInfo) -> Result<(), Failure> {
     let with = |v: Val| {
         let mut b = base.clone();
         b.set(&c.key, v);
-        let (bytes, _) = schema::case_file_with(&Val::Null, &[], FREED, &[(c.object, b)]);
+        let (bytes, _) = schema::case_file_full(&Val::Null, &[], FREED, &[(c.object, b)], FREED_LATER);
         bytes
     };
     let (a, n) = (with(Val::Ref(k, 0)), with(Val::Null));
     info.label(format!("doc-object/{}", c.object));
-    info.label(format!("kind/{}", KINDS[c.kind as usize % 6]));
+    info.label(format!("kind/{}", KINDS[c.kind as usize % 7]));
     for cached in [false, true] {
         for tolerant in [false, true] {
             let run = |bytes: &[u8]| panics::catch(|| doc_outcome(bytes, cached, tolerant));
@@ -522,7 +573,7 @@ pub fn check_doc(c: &DocCase, info: &mut CaseInfo) -> Result<(), Failure> {
             if on.is_ok() {
                 info.nontrivial(true);
                 if oa != on {
-                    return Err(Failure::new(format!("c18:doc:{}:{}:{}", c.object, c.key, if tolerant { "tolerant" } else { "strict" }), format!("object {} /{} -> {} 0 R ({}), {}: {:?}; with a literal null: {:?}", c.object, c.key, k, KINDS[c.kind as usize % 6], cfg, oa, on), art()));
+                    return Err(Failure::new(format!("c18:doc:{}:{}:{}", c.object, c.key, if tolerant { "tolerant" } else { "strict" }), format!("object {} /{} -> {} 0 R ({}), {}: {:?}; with a literal null: {:?}", c.object, c.key, k, KINDS[c.kind as usize % 7], cfg, oa, on), art()));
                 }
             } else {
                 info.label("doc/null-variant-rejected");
@@ -540,7 +591,7 @@ pub fn all_cases() -> Vec<Case> {
             continue;
         }
         for pos in positions(&subject) {
-            for kind in 0..6u8 {
+            for kind in 0..NKINDS {
                 for tolerant in [false, true] {
                     out.push(Case { model: m.name.to_string(), tape: Bytes(vec![]), pos: pos.clone(), kind, tolerant });
                 }
@@ -552,7 +603,7 @@ pub fn all_cases() -> Vec<Case> {
 
 pub fn case_strategy() -> impl Strategy<Value = Case> {
     let models: Vec<usize> = MODELS.iter().enumerate().filter(|(_, m)| m.shape != Shape::Scalar).map(|(i, _)| i).collect();
-    (any::<u16>(), gen::tape(40), any::<u16>(), 0u8..6, any::<bool>()).prop_map(move |(mi, tape, pi, kind, tolerant)| {
+    (any::<u16>(), gen::tape(40), any::<u16>(), 0u8..NKINDS, any::<bool>()).prop_map(move |(mi, tape, pi, kind, tolerant)| {
         let m = &MODELS[models[gen::pick_index(mi, models.len())]];
         let subject = crate::props::c15::build(m, &tape).subject;
         let ps = positions(&subject);
@@ -577,7 +628,7 @@ pub fn run(ctx: &Ctx) {
     ctx.run_enum("every-position", cases.len() as u64, |i| cases[i as usize].clone(), |c, info| check_case(c, info));
     let mut docs = Vec::new();
     for (object, key, _) in DOC_ENTRIES {
-        for kind in 0..6u8 {
+        for kind in 0..NKINDS {
             docs.push(DocCase { object: *object, key: key.to_string(), kind });
         }
     }
